@@ -4,7 +4,9 @@ package memoryevict
 
 import (
 	"fmt"
+	"math/big"
 	"sort"
+	"strings"
 	"testing"
 
 	"go.uber.org/mock/gomock"
@@ -95,17 +97,21 @@ const c11UsedQuantum = 1
 type c11Pod struct {
 	id, name  int
 	qos       int // 0 no label, 1 BE, 2 LS, 3 LSR, 4 LSE, 5 SYSTEM, 6 unknown string
+	kube      int // status.qosClass: -1 unset (computed: Burstable), 0 Guaranteed, 1 Burstable, 2 BestEffort
 	phase     int // 0 Pending 1 Running 2 Succeeded 3 Failed 4 Unknown
-	policy    int // 0 absent 1 lists 2 others 3 malformed
+	polTop    int // eviction-policy annotation: 0 absent, 1 not JSON, 2 null, 3 array, 4 other JSON value
+	polElems  []int // array elements: 0 the evaluated policy, 1 another string, 2 null, 3 not a string
 	policyTxt string
 	hasSpec   bool
 	spec      int32
-	clsLabel  int // 0 absent, 1 prod 2 mid 3 batch 4 free
+	clsLabel  int // 0 absent, 1 prod 2 mid 3 batch 4 free, 5 unknown string
 	evictLbl  int // 0 absent 1 "true" 2 "false" 3 "True"
-	epKind    int // 0 absent 1 valid 2 invalid
-	ep        int32
-	lpKind    int // 0 absent 1 valid 2 invalid
-	lp        int64
+	epKind    int // eviction-priority annotation: 0 absent 1 sign+digits literal 2 malformed
+	epTxt     string
+	epNum     *big.Int
+	lpKind    int // priority label, same kinds
+	lpTxt     string
+	lpNum     *big.Int
 	hasMetric bool
 	milli     int64 // int64(metric*1000)
 	reqNative int64
@@ -114,18 +120,34 @@ type c11Pod struct {
 	batchCPU  int64 // batch-cpu request (BE CPU path)
 }
 
-var c11ClsNames = []string{"", "koord-prod", "koord-mid", "koord-batch", "koord-free"}
+var c11ClsNames = []string{"", "koord-prod", "koord-mid", "koord-batch", "koord-free", "koord-bogus"}
 var c11ClsDefault = []int32{0, 9500, 7500, 5500, 3500}
 var c11QoSNames = []string{"", "BE", "LS", "LSR", "LSE", "SYSTEM", "bogus"}
 var c11Phases = []corev1.PodPhase{corev1.PodPending, corev1.PodRunning, corev1.PodSucceeded, corev1.PodFailed, corev1.PodUnknown}
 var c11PrioPool = []int32{-1, 100, 120, 3000, 3500, 5000, 5500, 5999, 7000, 7500, 7999, 9000, 9500}
 
+var c11NumLiterals = []string{"0", "1", "-1", "2", "-2", "+3", "-0", "007", "5", "100", "5500", "5501", "9999", "-3",
+	"2147483647", "2147483648", "-2147483648", "-2147483649", "3000000000", "-3000000000", "99999999999",
+	"9223372036854775807", "9223372036854775808", "-9223372036854775808", "-9223372036854775809", "99999999999999999999"}
+var c11NumMalformed = []string{"abc", "1.5", "", " 5", "5 ", "0x10", "1_000", "1e3", "--1", "+", "1x", "٣"}
+
 // harness' own reading of the protocol (not the repo's helpers)
+func c11InBits(v *big.Int, bits uint) bool {
+	lim := new(big.Int).Lsh(big.NewInt(1), bits-1)
+	return v.Cmp(new(big.Int).Neg(lim)) >= 0 && v.Cmp(lim) < 0
+}
+
+// a bogus priority-class label makes the pod's class (hence its default priority and the request that is
+// read) a matter of interpretation: the oracle stays silent on it, the model correspondence does not.
+func (p *c11Pod) clsAmbiguous() bool { return p.clsLabel == 5 }
+func (p *c11Pod) prioAmbiguous() bool {
+	return p.clsAmbiguous() && !(p.hasSpec && p.spec != 0)
+}
 func (p *c11Pod) effPrio() int32 {
 	if p.hasSpec && p.spec != 0 {
 		return p.spec
 	}
-	return c11ClsDefault[p.clsLabel] // generator guarantees a class label when spec is nil/0
+	return c11ClsDefault[p.cls()]
 }
 func c11RangeCls(v int32) int {
 	switch {
@@ -141,7 +163,7 @@ func c11RangeCls(v int32) int {
 	return 0
 }
 func (p *c11Pod) cls() int {
-	if p.clsLabel != 0 {
+	if p.clsLabel >= 1 && p.clsLabel <= 4 {
 		return p.clsLabel
 	}
 	c := 0
@@ -151,10 +173,16 @@ func (p *c11Pod) cls() int {
 	if c != 0 {
 		return c
 	}
-	if p.qos == 1 {
+	switch p.qos {
+	case 1:
 		return 3 // BE => batch
+	case 2, 3, 4, 5:
+		return 1 // LS/LSR/LSE/SYSTEM => prod
 	}
-	return 1 // LS/LSR/LSE/SYSTEM, or no koordinator QoS + Burstable (a native request is always set) => prod
+	if p.kube == 2 {
+		return 3 // kube BestEffort => BE => batch
+	}
+	return 1 // Guaranteed => LSR, Burstable => LS: prod
 }
 func (p *c11Pod) request() int64 {
 	switch p.cls() {
@@ -166,16 +194,67 @@ func (p *c11Pod) request() int64 {
 	return p.reqNative
 }
 func (p *c11Pod) evictPrio() int32 {
-	if p.epKind == 1 {
-		return p.ep
+	if p.epKind == 1 && c11InBits(p.epNum, 32) {
+		return int32(p.epNum.Int64())
 	}
 	return 0
 }
 func (p *c11Pod) labelPrio() int64 {
-	if p.lpKind == 1 {
-		return p.lp
+	if p.lpKind == 1 && c11InBits(p.lpNum, 64) {
+		return p.lpNum.Int64()
 	}
 	return int64(p.effPrio())
+}
+func (p *c11Pod) policyOK() bool {
+	switch p.polTop {
+	case 0:
+		return true
+	case 3:
+		has := false
+		for _, e := range p.polElems {
+			if e == 3 {
+				return false // not a list of strings
+			}
+			has = has || e == 0
+		}
+		return has
+	}
+	return false
+}
+func (p *c11Pod) policyCode() int { // PolicyAnno of the model, for tags only
+	switch {
+	case p.polTop == 0:
+		return 0
+	case p.policyOK():
+		return 1
+	case p.polTop == 2:
+		return 2
+	case p.polTop == 3:
+		for _, e := range p.polElems {
+			if e == 3 {
+				return 3
+			}
+		}
+		return 2
+	}
+	return 3
+}
+
+func c11GenNum(r *vRand, small bool) (kind int, txt string, num *big.Int) {
+	switch r.Intn(8) {
+	case 0, 1, 2:
+		return 0, "", nil
+	case 3:
+		txt = c11NumMalformed[r.Intn(len(c11NumMalformed))]
+		return 2, txt, nil
+	}
+	if small && r.Chance(2, 3) {
+		txt = fmt.Sprint(r.Range(-2, 2))
+	} else {
+		txt = c11NumLiterals[r.Intn(len(c11NumLiterals))]
+	}
+	num, _ = new(big.Int).SetString(txt, 10)
+	return 1, txt, num
 }
 
 func c11GenPod(r *vRand, id, name int) *c11Pod {
@@ -190,30 +269,62 @@ func c11GenPod(r *vRand, id, name int) *c11Pod {
 	} else {
 		p.phase = r.Intn(5)
 	}
-	if r.Chance(2, 3) {
-		p.policy = 0
-	} else {
-		p.policy = r.Range(1, 3)
+	p.kube = -1
+	if r.Chance(1, 2) {
+		p.kube = r.Intn(3)
 	}
-	switch p.policy {
+	if r.Chance(2, 3) {
+		p.polTop = 0
+	} else {
+		p.polTop = r.Range(1, 4)
+		if r.Chance(1, 2) {
+			p.polTop = 3
+		}
+	}
+	switch p.polTop {
 	case 1:
-		p.policyTxt = []string{`["` + c11Policy + `"]`, `["x","` + c11Policy + `"]`, `["` + c11Policy + `","y"]`}[r.Intn(3)]
+		p.policyTxt = []string{`notjson`, ``, `[`, `["` + c11Policy + `"`, `['` + c11Policy + `']`}[r.Intn(5)]
 	case 2:
-		p.policyTxt = []string{`[]`, `["other"]`, `null`, `["` + c11Policy + `x"]`}[r.Intn(4)]
+		p.policyTxt = []string{`null`, ` null `}[r.Intn(2)]
 	case 3:
-		p.policyTxt = []string{`notjson`, `{"a":1}`, `"` + c11Policy + `"`, `[1]`, ``}[r.Intn(5)]
+		n := r.Intn(4)
+		var parts []string
+		for i := 0; i < n; i++ {
+			e := r.Intn(4)
+			if r.Chance(1, 2) {
+				e = r.Intn(2)
+			}
+			p.polElems = append(p.polElems, e)
+			switch e {
+			case 0:
+				parts = append(parts, `"`+c11Policy+`"`)
+			case 1:
+				parts = append(parts, []string{`"other"`, `"` + c11Policy + `x"`, `"` + strings.ToLower(c11Policy) + `"`, `""`}[r.Intn(4)])
+			case 2:
+				parts = append(parts, `null`)
+			default:
+				parts = append(parts, []string{`1`, `{"a":1}`, `true`, `["` + c11Policy + `"]`}[r.Intn(4)])
+			}
+		}
+		p.policyTxt = "[" + strings.Join(parts, []string{",", " , "}[r.Intn(2)]) + "]"
+	case 4:
+		p.policyTxt = []string{`{"a":1}`, `"` + c11Policy + `"`, `1`, `true`}[r.Intn(4)]
 	}
 	switch r.Intn(10) {
-	case 0: // nil priority: class label supplies the default
-		p.clsLabel = r.Range(1, 4)
-	case 1: // zero priority
+	case 0: // nil priority: the class supplies the default
+		if r.Chance(2, 3) {
+			p.clsLabel = r.Range(1, 5)
+		}
+	case 1: // explicit zero priority: reads as the class default too
 		p.hasSpec, p.spec = true, 0
-		p.clsLabel = r.Range(1, 4)
+		if r.Chance(2, 3) {
+			p.clsLabel = r.Range(1, 5)
+		}
 	default:
 		p.hasSpec = true
 		p.spec = c11PrioPool[r.Intn(len(c11PrioPool))]
 		if r.Chance(1, 6) {
-			p.clsLabel = r.Range(1, 4)
+			p.clsLabel = r.Range(1, 5)
 		}
 	}
 	if r.Chance(3, 4) {
@@ -221,13 +332,9 @@ func c11GenPod(r *vRand, id, name int) *c11Pod {
 	} else {
 		p.evictLbl = r.Intn(4)
 	}
+	p.epKind, p.epTxt, p.epNum = c11GenNum(r, true)
 	if r.Chance(1, 2) {
-		p.epKind = r.Range(1, 2)
-		p.ep = int32(r.Range(-2, 2))
-	}
-	if r.Chance(1, 3) {
-		p.lpKind = r.Range(1, 2)
-		p.lp = int64([]int{-3, 0, 100, 5500, 5501, 9999}[r.Intn(6)])
+		p.lpKind, p.lpTxt, p.lpNum = c11GenNum(r, false)
 	}
 	p.hasMetric = !r.Chance(1, 6)
 	p.milli = c11MilliMetric(r)
@@ -254,23 +361,19 @@ func (p *c11Pod) build() *corev1.Pod {
 	if p.evictLbl != 0 {
 		labels[apiext.LabelPodEvictEnabled] = []string{"", "true", "false", "True"}[p.evictLbl]
 	}
-	switch p.lpKind {
-	case 1:
-		labels[apiext.LabelPodPriority] = fmt.Sprint(p.lp)
-	case 2:
-		labels[apiext.LabelPodPriority] = "1x"
+	if p.lpKind != 0 {
+		labels[apiext.LabelPodPriority] = p.lpTxt
 	}
-	if p.policy != 0 || p.epKind != 0 {
+	if p.polTop != 0 || p.epKind != 0 {
 		annotations = map[string]string{}
+	} else if p.id%3 == 0 {
+		annotations = map[string]string{"unrelated": "x"}
 	}
-	if p.policy != 0 {
+	if p.polTop != 0 {
 		annotations[apiext.AnnotationPodEvictPolicy] = p.policyTxt
 	}
-	switch p.epKind {
-	case 1:
-		annotations[apiext.AnnotationPodEvictionPriority] = fmt.Sprint(p.ep)
-	case 2:
-		annotations[apiext.AnnotationPodEvictionPriority] = []string{"abc", "1.5", "99999999999"}[p.id%3]
+	if p.epKind != 0 {
+		annotations[apiext.AnnotationPodEvictionPriority] = p.epTxt
 	}
 	if len(labels) == 0 && p.id%2 == 0 {
 		labels = nil
@@ -293,13 +396,15 @@ func (p *c11Pod) build() *corev1.Pod {
 		Spec:   corev1.PodSpec{Containers: []corev1.Container{{Name: "c", Resources: corev1.ResourceRequirements{Requests: req}}}},
 		Status: corev1.PodStatus{Phase: c11Phases[p.phase]},
 	}
+	if p.kube >= 0 {
+		pod.Status.QOSClass = []corev1.PodQOSClass{corev1.PodQOSGuaranteed, corev1.PodQOSBurstable, corev1.PodQOSBestEffort}[p.kube]
+	}
 	if p.hasSpec {
 		pod.Spec.Priority = ptr.To(p.spec)
 	}
 	return pod
 }
 
-func (p *c11Pod) policyOK() bool { return p.policy == 0 || p.policy == 1 }
 
 func c11LexLess(a, b []int64) int {
 	for i := range a {
@@ -337,9 +442,6 @@ func TestVerifC11Select(t *testing.T) {
 			pods[i] = c11GenPod(r, i, names[i])
 			if allNil {
 				pods[i].hasSpec, pods[i].spec = false, 0
-				if pods[i].clsLabel == 0 {
-					pods[i].clsLabel = r.Range(1, 4)
-				}
 			} else if !pods[i].hasSpec {
 				pods[i].hasSpec, pods[i].spec = true, 0
 			}
@@ -397,9 +499,26 @@ func TestVerifC11Select(t *testing.T) {
 		ev := New(opt).(*c11Evictor)
 
 		for _, p := range pods {
-			h.Op("pod %d %d %d %d %d %d %d 1 %d %d %d %d %d %d %d %d %d", p.id, p.name, vB(p.qos == 1), vB(p.phase <= 1), p.policy,
-				vB(p.hasSpec), p.spec, p.effPrio(), vB(p.evictLbl == 1), p.evictPrio(), vB(p.lpKind == 1), p.lp,
-				vB(p.hasMetric), p.milli, p.request(), p.batchCPU)
+			numTok := func(kind int, n *big.Int) string {
+				if kind == 1 {
+					return "1 " + n.String()
+				}
+				return fmt.Sprintf("%d 0", kind)
+			}
+			kube := p.kube
+			if kube < 0 {
+				kube = 1 // requests without limits: GetPodQOS computes Burstable
+			}
+			el := p.evictLbl
+			if el > 1 {
+				el = 2
+			}
+			h.Op("rawpod %d %d %d %d %d %d %d %d %d %s %s %d %d %d %d %d %d %d %d %s", p.id, p.name, p.qos, kube, p.phase,
+				vB(p.hasSpec), p.spec, p.clsLabel, el, numTok(p.epKind, p.epNum), numTok(p.lpKind, p.lpNum), p.polTop,
+				vB(p.hasMetric), p.milli, p.reqNative, p.reqMid, p.reqBatch, p.batchCPU, len(p.polElems), vIntsI(p.polElems))
+			h.Tag(fmt.Sprintf("policy-shape:%d/%d", p.polTop, p.policyCode()))
+			h.Tag(fmt.Sprintf("evict-prio:%d/inrange=%v", p.epKind, p.epKind == 1 && c11InBits(p.epNum, 32)))
+			h.Tag(fmt.Sprintf("spec-prio:%v/zero=%v/clsLabel=%d", p.hasSpec, p.hasSpec && p.spec == 0, p.clsLabel))
 		}
 
 		emit := func(out []*qosmanagerUtil.PodEvictInfo, same func(a, b *qosmanagerUtil.PodEvictInfo) bool) []*c11Pod {
@@ -454,8 +573,11 @@ func TestVerifC11Select(t *testing.T) {
 				return []int64{int64(p.evictPrio()), int64(p.effPrio()), p.labelPrio(), -s}
 			}
 			for i, p := range sel {
-				if !(p.effPrio() <= thr && p.evictLbl == 1 && p.policyOK()) {
-					h.Fail("C11:ineligible-victim", "priority path: pod %d (prio %d thr %d evictLbl %d policy %d) selected", p.id, p.effPrio(), thr, p.evictLbl, p.policy)
+				if !((p.prioAmbiguous() || p.effPrio() <= thr) && p.evictLbl == 1 && p.policyOK()) {
+					h.Fail("C11:ineligible-victim", "priority path: pod %d (prio %d thr %d evictLbl %d policy %d/%v) selected", p.id, p.effPrio(), thr, p.evictLbl, p.polTop, p.polElems)
+				}
+				if i > 0 && (p.prioAmbiguous() || sel[i-1].prioAmbiguous() || (byReq && (p.clsAmbiguous() || sel[i-1].clsAmbiguous()))) {
+					continue
 				}
 				if i > 0 && c11LexLess(key(sel[i-1]), key(p)) > 0 {
 					h.Fail("C11:list-out-of-order", "priority path: pod %d listed before pod %d", sel[i-1].id, p.id)
@@ -494,7 +616,7 @@ func TestVerifC11Select(t *testing.T) {
 				}
 				for i, p := range sel {
 					if !(p.qos == 1 && p.policyOK()) {
-						h.Fail("C11:ineligible-victim", "BE path: pod %d (qos %d policy %d) selected", p.id, p.qos, p.policy)
+						h.Fail("C11:ineligible-victim", "BE path: pod %d (qos %d policy %d/%v) selected", p.id, p.qos, p.polTop, p.polElems)
 					}
 					if i == 0 {
 						continue
